@@ -1,0 +1,19 @@
+//go:build verif
+
+package oxia
+
+import (
+	"context"
+
+	"github.com/oxia-db/oxia/common/rpc"
+	"github.com/oxia-db/oxia/oxia/internal"
+)
+
+// VerifExecutor re-exports the real write executor of the client (oxia/internal is not importable from the
+// verification harness): executorImpl over the given connection pool, with one shard (0) led by "verif".
+type VerifExecutor2 = internal.VerifExecutor
+
+func NewVerifExecutor2(ctx context.Context, pool rpc.ClientPool) *VerifExecutor2 {
+	return internal.NewVerifExecutor(ctx, DefaultNamespace, pool,
+		&verifShardManager{shards: []int64{0}, route: func(string) int64 { return 0 }})
+}
